@@ -13,7 +13,7 @@ fn cell_at(m: &Model, r: i32, c: i32) -> Option<Cell> {
 /// kinds: numbers (1.5, 123, -0.25, 1234567.5), booleans, text, text that looks like a number / boolean / error
 /// (quote-prefixed, as the engine stores such input), an error value, an empty styled cell; default, bold or
 /// percent-formatted style
-fn reenter_case(de: bool, id: &'static str) {
+fn menu_cell_model(de: bool) -> (Model<'static>, i32, i32, Cell) {
     let (r, c) = (any_row_index(), any_col_index());
     let mut ws = empty_sheet("Sheet1", 1);
     let mut wb = workbook_with_cells(vec![]);
@@ -50,6 +50,11 @@ fn reenter_case(de: bool, id: &'static str) {
     ws.sheet_data.insert(r, row);
     wb.worksheets = vec![ws];
     let mut model = model_from_workbook(wb);
+    (model, r, c, cell)
+}
+
+fn reenter_case(de: bool, id: &'static str) {
+    let (mut model, r, c, cell) = menu_cell_model(de);
     let shown = match model.get_localized_cell_content(0, r, c) { Ok(s) => s, Err(_) => { check(id, false); return; } };
     let ok = model.set_user_input(0, r, c, shown.clone()).is_ok();
     // an empty styled cell shows "" and re-entering "" clears the contents: the record may be an empty cell or absent
@@ -61,3 +66,17 @@ fn reenter_case(de: bool, id: &'static str) {
 }
 pub fn h_c18_reenter_en() { reenter_case(false, "C18.reenter_en.cell_reproduced"); reach("C18.reenter_en"); }
 pub fn h_c18_reenter_de() { reenter_case(true, "C18.reenter_de.cell_reproduced"); reach("C18.reenter_de"); }
+
+/// the reachable two-step states: something from the menu above, then one of TRUE / 12 / abc / 'x typed over it;
+/// the cell that results must again survive re-entry of what the editor shows for it
+const TYPED: [&str; 4] = ["TRUE", "12", "abc", "'x"];
+pub fn h_c18_reenter_after_typing_over() {
+    let (mut model, r, c, _first) = menu_cell_model(false);
+    let t = any_usize_to(TYPED.len() - 1);
+    if model.set_user_input(0, r, c, TYPED[t].to_string()).is_err() { check("C18.typed_over.accepted", false); return; }
+    let cell = cell_at(&model, r, c);
+    let shown = match model.get_localized_cell_content(0, r, c) { Ok(s) => s, Err(_) => { check("C18.typed_over.cell_reproduced", false); return; } };
+    let ok = model.set_user_input(0, r, c, shown.clone()).is_ok();
+    check("C18.typed_over.cell_reproduced", ok & (cell_at(&model, r, c) == cell) & (model.get_localized_cell_content(0, r, c) == Ok(shown)));
+    reach("C18.typed_over");
+}
